@@ -10,7 +10,7 @@ use crate::e2e;
 use crate::report::Report;
 use crate::rng::Rng;
 use crate::tool;
-use crate::tygen::{Gen, Method, Module, Sd, Ty};
+use crate::tygen::{Def, Gen, Lt, Method, Module, Prim, SelfParam, Sd, Ty};
 use crate::util;
 use serde_json::json;
 
@@ -99,6 +99,17 @@ pub fn main(args: &[String]) {
     while cases.len() < n && k < n * 3 {
         k += 1;
         let mut m = Gen::valid_module_avoiding(&mut rng, prof, crate::tygen::Avoid { more_zst: true, opt_unit_write: true, ..Default::default() });
+        // an optional parameter of the method's own type, written `Option<Self>` (see `rust_method`): one value
+        // type per module gets it
+        if let Some(t) = m.types.iter_mut().find(|t| matches!(&t.def, Def::Struct { out: false, .. } | Def::Enum { .. })) {
+            let owner = t.name.clone();
+            t.methods.push(Method {
+                name: "vos".into(),
+                self_param: Some(SelfParam { ty: owner.clone(), by_ref: false, mutable: false, lt: Lt::Anon }),
+                params: vec![("o".into(), Ty::Opt(Box::new(Ty::Named(owner)), Sd::Std))],
+                ret: Some(Ty::Prim(Prim::U8)),
+            });
+        }
         // twins are added before the helper methods; the spelling fixes of `prepare` apply to both
         let pairs = add_twins(&mut m);
         let mut case = e2e::make_case(m, cases.len(), &mut rng);
